@@ -21,6 +21,8 @@ ASSUMPTIONS = ['user callables are deterministic and touch nothing but the row /
                'positional pairing of streams and descriptors (get_iterator.func: zip_longest + ResourceWrapper asserts) is '
                'exercised by the bounded end-to-end run only']
 
+from contracts.common import lazy_sym, lazy_nat   # noqa: E402
+
 ITEMS = [
     Item('Flow._chain', BA.sym_flow_chain, [('lazy-vs-stepwise', BA.nat_lazy_vs_stepwise), ('cooperating-steps', BA.nat_cooperating_steps)],
          BA.B + 'flow.py::Flow._chain'),
@@ -42,4 +44,6 @@ ITEMS = [
     Item('duplicate.own-descriptor', K16.sym_duplicate_func, [], 'dataflows/processors/duplicate.py::duplicate.func'),
     Item('duplicate.saver', K16.sym_saver, [], 'dataflows/processors/duplicate.py::saver'),
     Item('core-objects', BA.sym_base_objects, [], BA.B + 'datastream.py::DataStream.merge_stats'),
+    # join's index is written BEFORE the source row travels on (a later in-place edit of the row cannot reach what was stored)
+    Item('join.indexer', lazy_sym('C11', 'sym_indexer'), [], 'dataflows/processors/join.py::join_aux.indexer'),
 ]
